@@ -53,6 +53,12 @@ class System:
 
     def advertised(self, cfg):
         """{'bank':..., 'cc':..., 'inv':...} as the profile of cfg's server advertises them"""
+        if self.advertise == "moving":
+            # the server re-sends its full profile on every request, never bumps DTPROFUP, and alternates the service URL
+            p = urllib.parse.urlsplit(cfg["url"])
+            n = self.moves.get(cfg["url"], 0)
+            u = f"{p.scheme}://{p.netloc}/svc{n % 2}{p.path}"
+            return {"bank": u, "cc": u, "inv": u}
         if self.advertise != "split":
             u = self.service_url(cfg)
             return {"bank": u, "cc": u, "inv": u}
@@ -77,9 +83,12 @@ class System:
             cfg = next(c for c in (self.client_cfg("A"), self.client_cfg("B")) if c["url"] == ex.url or True)
             # which client's profile?  by URL (configured URLs differ between servers; same-server clients share it)
             owner = self.client_cfg("A") if ex.url == self.client_cfg("A")["url"] else self.client_cfg("B")
+            if self.advertise == "moving":
+                self.moves[owner["url"]] = self.moves.get(owner["url"], 0) + 1
             adv = self.advertised(owner)
+            self.last_advertised = adv
             prof_date = datetime.datetime(2020, 1, 1, tzinfo=UTC)
-            if rq["dtprofup_ms"] >= 1577836800000:
+            if rq["dtprofup_ms"] >= 1577836800000 and self.advertise != "moving":
                 body = F.profile_response(rq["trnuids"][0], prof_date, {}, status=1)
             else:
                 body = F.profile_response(rq["trnuids"][0], prof_date, adv)
@@ -98,6 +107,8 @@ class System:
         self.net.handler = self.handler
         self.first_sent = set()
         self.cookies_set = {}
+        self.moves = {}
+        self.last_advertised = None
         clients = {}
         cfgs = {}
         for who in ("A", "B"):
@@ -141,7 +152,7 @@ class System:
             jars.append(tuple(sorted((c.domain, c.path, c.name, c.value) for c in clients[who].cookiejar)))
         d = cache_dir()
         cached = tuple(sorted(p.name for p in d.iterdir())) if d.exists() else ()
-        return (tuple(jars), cached, tuple(sorted(self.first_sent)))
+        return (tuple(jars), cached, tuple(sorted(self.first_sent)), tuple(sorted((k, v % 2) for k, v in self.moves.items())))
 
     # -- oracle -----------------------------------------------------------------------------
     def check_event(self, history, who, call, mode, cfg, cfgs, ret, err, exchanges, cookies_before, placeholder):
@@ -171,7 +182,10 @@ class System:
                 fail("dry-run-returns-no-request", repr(e))
             return fails
         other = cfgs["B" if who == "A" else "A"]
-        svc = self.service_url(cfg) if self.advertise != "split" else set(self.advertised(cfg).values())
+        if self.advertise == "moving":
+            svc = set(self.last_advertised.values()) if self.last_advertised else set()  # what the profile answer of THIS call said
+        else:
+            svc = self.service_url(cfg) if self.advertise != "split" else set(self.advertised(cfg).values())
         want = []
         if call == "profile":
             want = [("profile", cfg["url"], False)]
@@ -249,7 +263,7 @@ class System:
         return fails
 
 
-CONFIGS = [(adv, pol, pair) for adv in ("same", "other-path", "other-host", "split") for pol in ("none", "first", "every") for pair in ("same-server", "other-server")]
+CONFIGS = [(adv, pol, pair) for adv in ("same", "other-path", "other-host", "split", "moving") for pol in ("none", "first", "every") for pair in ("same-server", "other-server")]
 
 
 def explore(args):
@@ -287,7 +301,16 @@ def run(ctx):
     rot = ctx.seed % len(CONFIGS)
     cfgs = CONFIGS[rot:] + CONFIGS[:rot]
     if ctx.quick:
-        cfgs = [c for c in cfgs if not (c[2] == "other-server" and c[1] == "none")][:16] + [c for c in cfgs if c[0] == "split" and c[1] == "first" and c[2] == "same-server"][:0]
+        keep = [c for c in cfgs if not (c[2] == "other-server" and c[1] == "none")]
+        blocks = {}
+        for c in keep:
+            blocks.setdefault(c[0], []).append(c)
+        order = []
+        for i in range(5):
+            for adv in blocks:
+                if i < len(blocks[adv]):
+                    order.append(blocks[adv][(i + ctx.seed) % len(blocks[adv])])
+        cfgs = list(dict.fromkeys(order))[:16]  # one system per core, every advertise variant at least three times
     tally = ctx.pmap(work, [(c, depth) for c in cfgs], chunk=1)
     md = tally.counts.pop("max_depth", 0)
     if tally.counts.get("states", 0) < 50 or tally.counts.get("transitions", 0) < 1000:
@@ -301,7 +324,7 @@ def run(ctx):
         "systems_at_fixpoint": tally.counts.get("fixpoints", 0),
         "depth_bound": depth,
         "max_depth_with_new_state": md,
-        "rule": ("16 of the 24" if ctx.quick else "all 24") + " closed systems = profile advertising {same URL, other path, other host, a different URL per service} x server cookie policy {none, first response, every response} x second client "
+        "rule": ("16 of the 30" if ctx.quick else "all 30") + " closed systems = profile advertising {same URL, other path, other host, a different URL per service, a server that re-sends its profile with an unchanged date but an alternating service URL} x server cookie policy {none, first response, every response} x second client "
         "{same server, other server}; per system BFS over all event sequences (22 events: 2 clients x {profile: dryrun/normal; statements, accounts, tax: dryrun/skip_profile/"
         "normal}) to the depth bound, states de-duplicated on (both cookie jars, cached profile files, server cookie flags) - every field future requests can depend on; every "
         "transition executes the real OFXClient against the scripted server and checks that event's HTTP exchanges against the model (count, method, URL, headers, anonymous vs "
